@@ -204,6 +204,46 @@ func registerChunkKinds(c *core.Ctx) {
 		}
 		return line, sb.String()
 	}})
+	// chunk.exchange: exchangeServiceInfo itself (negotiated message size -> budget of a round -> messages), compared with
+	// the model of one round at budget mtu-5; the monitor measures the WHOLE encoded message against the negotiated size
+	c.Register(&core.Kind{Name: "chunk.exchange", Eval: func(p core.Params) (string, string) {
+		ms := decodeMsgs(p["msgs"])
+		mtu, _ := strconv.Atoi(p["mtu"])
+		line := fmt.Sprintf("chunk.rounds %s z:%x n:1", itemsArg(ms), mtu-5)
+		if p["lineonly"] != "" {
+			return line, ""
+		}
+		buffers, _ := strconv.Atoi(p["buffers"])
+		r, done := startProducer(ms, buffers, 0)
+		ctx, cancel := context.WithTimeout(context.Background(), 10*time.Second)
+		defer cancel()
+		msgs, _ := fdo.VerifExchangeServiceInfo(ctx, uint16(mtu), r)
+		var sb strings.Builder
+		sb.WriteString("ok")
+		for _, m := range msgs {
+			sb.WriteString(" (R")
+			for _, kv := range m.KVs {
+				sb.WriteString(" " + renderKV(kv))
+			}
+			if m.IsMore {
+				sb.WriteString(" more)")
+			} else {
+				sb.WriteString(" last)")
+			}
+		}
+		go func() {
+			for {
+				if _, err := r.ReadChunk(65535); err != nil && !errors.Is(err, serviceinfo.ErrSizeTooSmall) {
+					return
+				}
+			}
+		}()
+		select {
+		case <-done:
+		case <-time.After(5 * time.Second):
+		}
+		return line, sb.String()
+	}})
 }
 
 // reassemble what the receiver would see: consecutive equal keys concatenated (independent of go-fdo)
@@ -380,6 +420,34 @@ func RunC15(c *core.Ctx) {
 			checkBatches(c, p, o, mtu)
 		}
 	}
+	// (d) whole messages against the negotiated size: n small KVs followed by a value long enough to fill the message to
+	// the brim; the array head of the KV list grows at 24 and 256 entries, which the 5 bytes reserved by the caller must cover
+	counts := []int{0, 1, 22, 23, 24, 25, 100, 254, 255, 256, 257, 300}
+	sizesD := []int{256, 1300, 4000, 65535}
+	if !c.Quick() {
+		counts = append(counts, 2, 3, 10, 50, 150, 200, 253, 258, 400, 1000)
+		sizesD = append(sizesD, 300, 512, 2000, 10000, 30000)
+	}
+	for _, mtu := range sizesD {
+		for _, n := range counts {
+			if n*7 > mtu-40 && !(n <= 25) {
+				continue // the small KVs alone would not fit into one message
+			}
+			var ms []svcMsg
+			for j := 0; j < n; j++ {
+				ms = append(ms, svcMsg{Mod: "m", Name: "k", Val: rnd(1)})
+			}
+			long := 2*mtu + 10
+			if long > 70000 {
+				long = 70000
+			}
+			ms = append(ms, svcMsg{Mod: "m", Name: "v", Val: rnd(long)})
+			p := core.Params{"msgs": encodeMsgs(ms), "mtu": fmt.Sprint(mtu), "buffers": fmt.Sprint([]int{0, 16}[c.Rng.Intn(2)])}
+			o := c.Do("chunk.exchange", p, "message-filled-to-the-brim")
+			monitorRun("chunk.exchange", p, ms, o, true)
+			checkMessages(c, p, o, mtu)
+		}
+	}
 }
 
 func kvSize(k, v int) int {
@@ -407,6 +475,33 @@ func checkBatches(c *core.Ctx, p core.Params, o core.Obs, mtu int) {
 		if sum > mtu {
 			c.Fail("batch-exceeds-mtu", fmt.Sprintf("batch of %d bytes for MTU %d", sum, mtu), "chunk.rounds", p, o)
 		}
+	}
+}
+
+// checkMessages: the whole TO2.DeviceServiceInfo message ([IsMoreServiceInfo, [KV...]]) fits the negotiated size.
+func checkMessages(c *core.Ctx, p core.Params, o core.Obs, mtu int) {
+	for _, r := range strings.Split(o.Impl, "(R")[1:] {
+		sum, n := 0, 0
+		for _, tok := range strings.Split(r, "(K ")[1:] {
+			f := strings.Fields(strings.SplitN(tok, ")", 2)[0])
+			if len(f) >= 2 {
+				sum += kvSize((len(f[0])-2)/2, (len(f[1])-2)/2)
+				n++
+			}
+		}
+		head := 1
+		switch {
+		case n >= 65536:
+			head = 5
+		case n >= 256:
+			head = 3
+		case n >= 24:
+			head = 2
+		}
+		if total := 2 + head + sum; total > mtu {
+			c.Fail("message-exceeds-mtu", fmt.Sprintf("TO2.DeviceServiceInfo of %d bytes (%d KVs) for a negotiated size of %d", total, n, mtu), "chunk.exchange", p, o)
+		}
+		c.Count("exchange_kvs_per_message", map[bool]string{true: ">=256", false: map[bool]string{true: "24..255", false: "<24"}[n >= 24]}[n >= 256])
 	}
 }
 
